@@ -149,10 +149,20 @@ func names(sel []fedcat.FSel) []string {
 	return out
 }
 
+// dataOrDerived mirrors DataOrDerived of the spec: a required field may itself be @requires-computed (chain).
+func (m *Mode) dataOrDerived(o, fn string) Val {
+	if td := fedcat.FindType(m.Types, m.U.Objs[o].Type); td != nil {
+		if fd := td.Field(fn); fd != nil && len(fd.Req) > 0 {
+			return reqValue(fn, m.projD(fd.Req, o))
+		}
+	}
+	return m.fieldData(o, fn)
+}
+
 func (m *Mode) projD(sel []fedcat.FSel, o string) Val {
 	vs := make([]Val, len(sel))
 	for i, s := range sel {
-		dv := m.fieldData(o, s.Name)
+		dv := m.dataOrDerived(o, s.Name)
 		if len(s.Sel) == 0 {
 			vs[i] = dv
 		} else {
